@@ -547,5 +547,29 @@ Lemma c01_report_spec : forall ops outs,
 Proof. reflexivity. Qed.
 Lemma c02_report_spec : forall ops outs ds,
   c02_report ops outs ds = (chk_hist ops outs, c02_fails ops outs ds, c02_checked ops outs ds,
-                            map (fun c => c02_k c ops outs ds) [1; 2; 4; 5]).
+                            map (fun c => c02_k c ops outs ds) [1; 2; 4; 5], ctl_fails ops outs).
 Proof. reflexivity. Qed.
+
+(** ** transaction control follows the specification's state machine, along every history *)
+Lemma ctl_ok_from : forall ops st sp i, inv st -> paired st sp ->
+  ctl_fails_from sp i ops (map canon (snd (run_from st ops))) = [].
+Proof.
+  induction ops as [|o r IH]; intros st sp i Hi Hp; [reflexivity|].
+  rewrite run_from_cons. cbn [snd map ctl_fails_from].
+  rewrite (IH _ _ (i + 1) (inv_step st o Hi) (paired_step st sp o Hi Hp)), app_nil_r.
+  assert (Hv : forall s, sess st s = None <-> s_view sp s = None) by (apply (pa_sess _ _ Hp)).
+  destruct o; try reflexivity.
+  - (* Begin *) cbn [step]. destruct (sess st s) as [t|] eqn:Hs.
+    + destruct (s_view sp s) eqn:E; [reflexivity|]. apply Hv in E. congruence.
+    + rewrite (proj1 (Hv s) Hs). destruct (tm_begin st) as [st1 t]. reflexivity.
+  - (* Commit *) destruct (sess st s) as [t|] eqn:Hs.
+    + rewrite (proj1 (commit_ok_l st s t Hi Hs)).
+      destruct (s_view sp s) eqn:E; [reflexivity|]. apply Hv in E. congruence.
+    + cbn [step]. rewrite Hs, (proj1 (Hv s) Hs). reflexivity.
+  - (* Rollback *) destruct (sess st s) as [t|] eqn:Hs.
+    + rewrite (proj1 (rollback_ok_l st s t Hi Hs)).
+      destruct (s_view sp s) eqn:E; [reflexivity|]. apply Hv in E. congruence.
+    + cbn [step]. rewrite Hs, (proj1 (Hv s) Hs). reflexivity.
+Qed.
+Lemma tx_control_follows_spec_l : forall ops, ctl_fails ops (mrun ops) = [].
+Proof. intros ops. apply (ctl_ok_from ops init sinit 0 inv_init paired_init). Qed.
